@@ -96,6 +96,7 @@ type flushRecorder struct {
 	mu     sync.Mutex
 	chunks chan []byte
 	n      int
+	slow   bool
 }
 
 func (f *flushRecorder) Write(b []byte) (int, error) {
@@ -103,8 +104,8 @@ func (f *flushRecorder) Write(b []byte) (int, error) {
 	f.n++
 	n := f.n
 	f.mu.Unlock()
-	if n <= 3 {
-		time.Sleep(1500 * time.Microsecond) // a slow listener: later records queue up behind the one being written
+	if f.slow && n <= 2 {
+		time.Sleep(1200 * time.Microsecond) // a slow listener: later records queue up behind the one being written
 	}
 	select {
 	case f.chunks <- append([]byte(nil), b...):
@@ -166,6 +167,7 @@ func (consumersSuite) Run(h map[string]string, ops []string) []string {
 		}
 	}
 	out := make([]string, len(ops))
+	streamOps := 0
 	lastPartial := false // the stored config has no TimeKeeper: diagnostics then read the wall clock, not the substitute one
 	for i, op := range ops {
 		out[i] = func() (res string) {
@@ -233,7 +235,8 @@ func (consumersSuite) Run(h map[string]string, ops []string) []string {
 				go func() { _ = es.Start() }()
 				ctx, cancel := context.WithCancel(context.Background())
 				req := httptest.NewRequest(http.MethodGet, "/hystrix.stream", nil).WithContext(ctx)
-				rw := &flushRecorder{ResponseRecorder: httptest.NewRecorder(), chunks: make(chan []byte, 64)}
+				streamOps++
+				rw := &flushRecorder{ResponseRecorder: httptest.NewRecorder(), chunks: make(chan []byte, 64), slow: streamOps%4 == 1}
 				done := make(chan struct{})
 				go func() { es.ServeHTTP(rw, req); close(done) }()
 				// gather records until both circuits ("c" under test, "d" idle) have been seen
